@@ -43,6 +43,43 @@ def declared_vs_read(c, o):
     return ["the structure handed to the solver is not the one the file declares: " + f for f in C10.expect(s, o)]
 
 
+def adapt_errors(ctx, cases):
+    """The solver (an external PCG with an absolute stopping rule and 10 n iterations) does not converge to a tight error on
+    badly conditioned structures, and a group whose reference run is not solved judges nothing.  For every group the
+    reference run is tried at its error x 1, 1e2, 1e4, 1e6; the group is then run one step looser than the tightest error
+    that solved (all members alike, so that their ratios stay what the generator chose)."""
+    groups = {}
+    for c in cases:
+        if c.get("group") is not None and c.get("Solve"):
+            groups.setdefault(c["group"], []).append(c)
+    factors = [1.0, 1e2, 1e4, 1e6]
+    probes, owners = [], []
+    for g, members in groups.items():
+        base = next((m for m in members if m.get("role") == "base"), members[0])
+        e0 = float(base.get("Error") or "1e-5")
+        for f in factors:
+            probes.append(dict(base, Error="%.9e" % (e0 * f), Isolate=False, Order="", Repre=False, Templates=False, Reassemble=False, Restage=0, Concurrent=False))
+            owners.append((g, f))
+    if not probes:
+        return {}
+    outs = S.run_pipeline(ctx, probes)
+    ok = {}
+    for (g, f), o in zip(owners, outs):
+        if o.get("Sol") and not o.get("SolvePanic") and not o.get("SysPanic"):
+            ok.setdefault(g, []).append(f)
+    chosen = {}
+    for g, members in groups.items():
+        if g not in ok:
+            continue        # never solved: the group stays as generated (and judges nothing)
+        k = factors.index(min(ok[g]))
+        f = factors[min(k + 1, len(factors) - 1)]
+        chosen[g] = f
+        if f != 1.0:
+            for m in members:
+                m["Error"] = "%.9e" % (float(m.get("Error") or "1e-5") * f)
+    return chosen
+
+
 def run(ctx, spec):
     rng = random.Random(ctx.seed)
     res = C.prove(ctx, spec["prop_file"], extra_targets=["Corr/Compare.vo"])
@@ -56,6 +93,11 @@ def run(ctx, spec):
         for c in cases:
             c.update(spec.get("corpus_opts", {}))
         cases += spec["gen"](rng, ctx.tier)
+        if spec.get("adaptive_error"):
+            chosen = adapt_errors(ctx, cases)
+            ngroups = len({c.get("group") for c in cases if c.get("group") is not None})
+            ctx.log("requested error per group adapted to what the solver reaches: %d of %d groups have a reference run that solves (factors %s)" % (
+                len(chosen), ngroups, sorted(set(chosen.values()))))
     outs = S.run_pipeline(ctx, cases)
     ctx.log("ran %d structures through the implementation" % len(cases))
 
